@@ -159,6 +159,8 @@ pub fn judge(r: &RefRun, idx: usize, cfg: &RunCfg, obs: Option<&Obs>, exit: &Exi
         },
         End::Returned(fin) => {
             let faulted = fault_exp.is_some() && cfg.fault != Fault::OutAbsent;
+            // the complete sequence as this configuration can observe it (no sink: input requests only)
+            let full: Vec<Ev> = if cfg.fault == Fault::OutAbsent { r.events.iter().copied().filter(|e| matches!(e, Ev::In)).collect() } else { r.events.clone() };
             match (cfg.mode, fin) {
                 (Mode::Limited(budget), Some(finished)) => {
                     if faulted {
@@ -172,15 +174,15 @@ pub fn judge(r: &RefRun, idx: usize, cfg: &RunCfg, obs: Option<&Obs>, exit: &Exi
                         match r.fate {
                             Fate::Diverges => Verdict::Violation(Failure { kind: "finished-divergent".into(), detail: format!("reported finished for a canonically divergent program (budget {budget})"), cfg: idx }),
                             Fate::Halt => {
-                                if *got != r.events {
-                                    mismatch(idx, "reported finished but events are not the complete canonical sequence", &r.events, got)
+                                if *got != full {
+                                    mismatch(idx, "reported finished but events are not the complete canonical sequence", &full, got)
                                 } else {
                                     Verdict::Ok
                                 }
                             }
                             Fate::Unknown => {
-                                if got.len() < r.events.len() {
-                                    mismatch(idx, "reported finished with fewer events than the canonical run is known to have", &r.events, got)
+                                if got.len() < full.len() {
+                                    mismatch(idx, "reported finished with fewer events than the canonical run is known to have", &full, got)
                                 } else {
                                     Verdict::Ok
                                 }
@@ -203,8 +205,8 @@ pub fn judge(r: &RefRun, idx: usize, cfg: &RunCfg, obs: Option<&Obs>, exit: &Exi
                     }
                     match r.fate {
                         Fate::Halt => {
-                            if *got != canon {
-                                mismatch(idx, "returned before producing the complete canonical sequence", &canon, got)
+                            if *got != full {
+                                mismatch(idx, "returned before producing the complete canonical sequence", &full, got)
                             } else {
                                 Verdict::Ok
                             }
@@ -221,7 +223,12 @@ pub fn judge(r: &RefRun, idx: usize, cfg: &RunCfg, obs: Option<&Obs>, exit: &Exi
 /// Configurations that must never return: unlimited execution of a canonically
 /// divergent program without an I/O fault.
 pub fn expects_no_return(r: &RefRun, cfg: &RunCfg) -> bool {
-    r.fate == Fate::Diverges && !matches!(cfg.mode, Mode::Limited(_)) && matches!(cfg.fault, Fault::None | Fault::OutAbsent)
+    // an effectively unlimited budget behaves like plain execution here
+    let unlimited = match cfg.mode {
+        Mode::Limited(b) => b >= (1 << 40),
+        _ => true,
+    };
+    r.fate == Fate::Diverges && unlimited && matches!(cfg.fault, Fault::None | Fault::OutAbsent)
 }
 
 /// Window for a configuration that is expected not to return: long enough that a
@@ -233,7 +240,13 @@ pub fn no_return_window(r: &RefRun) -> Duration {
 /// Watchdog window for a child running `ncfgs` configurations of a program
 /// whose canonical run took `steps` steps.
 pub fn window(steps: u64, ncfgs: usize) -> Duration {
-    let base = if FAST_REJECT.load(std::sync::atomic::Ordering::Relaxed) { 250 } else { 2_000 };
+    let base = if FAST_REJECT.load(std::sync::atomic::Ordering::Relaxed) {
+        250
+    } else if HANG_SHRINK.load(std::sync::atomic::Ordering::Relaxed) {
+        700
+    } else {
+        2_000
+    };
     let per = base + steps / 500; // ms: 2 s + 2 us per canonical step
     Duration::from_millis(per * ncfgs.max(1) as u64)
 }
@@ -243,11 +256,18 @@ pub fn window(steps: u64, ncfgs: usize) -> Duration {
 /// lose a shrink step, never create a finding.
 pub static FAST_REJECT: std::sync::atomic::AtomicBool = std::sync::atomic::AtomicBool::new(false);
 
+/// While shrinking a confirmed hang, a candidate that is still running after a
+/// short window counts as hanging without the 10x confirmation; the minimal
+/// case is confirmed in full afterwards (and discarded if it does not confirm).
+pub static HANG_SHRINK: std::sync::atomic::AtomicBool = std::sync::atomic::AtomicBool::new(false);
+
 /// Run all configurations in one forked child.
 pub fn run_child(code: &str, input: &[u8], bits: u32, cfgs: &[RunCfg], r: &RefRun, timeout: Duration) -> ChildRun {
     let cap = if total_events_known(r) { r.events.len() + 64 } else { usize::MAX };
-    child::in_child(timeout, || {
-        exec::run_all(code, input, bits, cfgs, cap);
+    // the child watches each configuration itself; the parent's window is the sum plus slack
+    let per = (timeout.as_millis() as u64 / cfgs.len().max(1) as u64).max(50);
+    child::in_child(timeout + Duration::from_millis(1500), || {
+        exec::run_all(code, input, bits, cfgs, cap, per);
         0
     })
 }
@@ -275,7 +295,9 @@ pub fn run_and_judge(code: &str, input: &[u8], bits: u32, cfgs: &[RunCfg], r: &R
                 observations[idx] = Some(o.clone());
             }
             let cut = obs.map(|o| o.end == End::Cut).unwrap_or(false);
-            if cut && run.exit == Exit::Timeout && !expects_no_return(r, cfg) && !FAST_REJECT.load(std::sync::atomic::Ordering::Relaxed) {
+            // only a run that is otherwise in order (canonical prefix, fault reachable) and was cut by the watchdog
+            let timed_out = matches!(&v, Verdict::Inconclusive(w) if w == "timeout");
+            if timed_out && cut && run.exit == Exit::Timeout && !expects_no_return(r, cfg) && !FAST_REJECT.load(std::sync::atomic::Ordering::Relaxed) {
                 v = confirm_hang(code, input, bits, idx, cfg, r);
             }
             let stop = cut || obs.is_none();
@@ -314,6 +336,9 @@ fn confirm_hang(code: &str, input: &[u8], bits: u32, idx: usize, cfg: &RunCfg, r
     };
     if !must_return {
         return Verdict::Inconclusive("watchdog hit on a run that need not return".into());
+    }
+    if HANG_SHRINK.load(std::sync::atomic::Ordering::Relaxed) {
+        return Verdict::Violation(Failure { kind: "hang".into(), detail: "still running after the shrink window (unconfirmed)".into(), cfg: idx });
     }
     let w = window(r.steps, 1) * 10;
     let run = run_child(code, input, bits, std::slice::from_ref(cfg), r, w);
